@@ -1,11 +1,11 @@
 CONSTANTS
   N = 3
   M = 3
-  MinNP = 3
-  MaxNP = 3
+  MinNP = 1
+  MaxNP = 2
   SamePart = TRUE
-  MaskStride = 32
-  MaskOff = 21
+  MaskStride = 1
+  MaskOff = 0
 INIT Init
 NEXT Next
 INVARIANTS SplitInv PatternInv GhostInv DistSpmvInv ScalarsInv NoErrInv LogInv
